@@ -12,8 +12,10 @@
 (*                           branch is parsed with the modifier as parent  *)
 (*   FunctionBodyParentIsCall - a function body's parent is the "@"        *)
 (*                           structure class (FunctionCall), not FunctionDef *)
-(*   IfAndListAreTransparent - if-branches and list items inherit the      *)
-(*                           enclosing parent when there is one            *)
+(*   IfIsTransparent       - if-branches inherit the enclosing parent      *)
+(*                           when there is one; list items never do (each  *)
+(*                           item is its own function)                     *)
+(*   ConditionOutsideLoop  - a while condition has no loop parent          *)
 (*   StrayCloserDropped    - a closer that does not match the innermost    *)
 (*                           open structure is discarded                   *)
 (*                                                                         *)
@@ -123,7 +125,7 @@ Structure(open, brs, parent) ==
          [] open = c_lbrace ->
               [t |-> "while",
                cond |-> IF Len(brs) = 1 THEN <<RawTok(Tok("number", <<49>>))>>
-                        ELSE Parse(brs[1], own),
+                        ELSE Parse(brs[1], "none"),      \* ConditionOutsideLoop: no loop to break there
                body |-> Parse(last, own)]
          [] open = c_at ->
               LET pp == ProcessParameters(brs[1])
@@ -138,9 +140,9 @@ Structure(open, brs, parent) ==
                  ELSE [t |-> "lam", arity |-> ar, body |-> Parse(last, own)]
          [] open \in {c_lmap, c_lfilter, c_lsort} ->
               [t |-> own, body |-> Parse(brs[1], own)]
-         [] OTHER ->       \* if statement, list literal: IfAndListAreTransparent
+         [] OTHER ->       \* if statement (IfIsTransparent), list literal
               [t |-> own,
-               br |-> ParseEach(brs, IF parent = "none" THEN own ELSE parent)]
+               br |-> ParseEach(brs, IF own = "list" \/ parent = "none" THEN own ELSE parent)]
 
 ModArity(c) == IF c \in MonadicMods THEN 1 ELSE IF c \in DyadicMods THEN 2 ELSE 3
 ModParent(c) == IF c \in MonadicMods THEN "mon" ELSE IF c \in DyadicMods THEN "dy" ELSE "tri"
@@ -234,7 +236,7 @@ FnHeaderOK(br) ==
 
 RECURSIVE HeadersOK(_)
 RECURSIVE HeadersOKEach(_)
-HeadersOKEach(brs) == brs = <<>> \/ (HeadersOK(Head(brs)) /\ HeadersOKEach(Tail(brs)))
+HeadersOKEach(brs) == IF brs = <<>> THEN TRUE ELSE (HeadersOK(Head(brs)) /\ HeadersOKEach(Tail(brs)))
 
 StructHeadersOK(open, brs) ==
     LET last == brs[Len(brs)]
